@@ -22,13 +22,19 @@ pub fn alphabet(thorough: bool) -> Vec<crate::connx::Piece> {
         piece("body_tricky40", Class::Body, &crate::props::alphabet::tricky_body(40)),
     ];
     if thorough {
-        p.push(piece("rl_get11", Class::ReqLine, b"GET /g HTTP/1.1\r\n"));
+        // medium alphabet (reaches its fixpoint); `alphabet_full` adds the rest
         p.push(piece("h_cl3", Class::Header, b"Content-Length: 3\r\n"));
         p.push(piece("h_expect_lower_tab", Class::Header, b"expect:\t100-continue\r\n"));
-        p.push(piece("h_xa", Class::Header, b"X-a: 1\r\n"));
         p.push(piece("body_abc", Class::Body, b"abc"));
-        p.push(piece("stray_cr", Class::Stray, b"\r"));
     }
+    p
+}
+
+pub fn alphabet_full() -> Vec<crate::connx::Piece> {
+    let mut p = alphabet(true);
+    p.push(piece("rl_get11", Class::ReqLine, b"GET /g HTTP/1.1\r\n"));
+    p.push(piece("h_xa", Class::Header, b"X-a: 1\r\n"));
+    p.push(piece("stray_cr", Class::Stray, b"\r"));
     p
 }
 
@@ -40,9 +46,19 @@ pub fn run(thorough: bool) -> Vec<Part> {
         let mut cfg = Cfg::base("C13", "expect-alphabet", alphabet(thorough), 40);
         cfg.allow_defer = true;
         cfg.empty_reads = false;
-        let limits = Limits { max_states: 6_000_000, max_secs: if thorough { 3000.0 } else { 120.0 }, ..Default::default() };
+        let limits = Limits { max_states: 12_000_000, max_secs: if thorough { 1500.0 } else { 120.0 }, ..Default::default() };
         let st = bfs(&cfg, &limits, workers());
         record(&mut part, "expect-alphabet", &st);
+        if thorough {
+            let mut full = Cfg::base("C13", "expect-alphabet-full", alphabet_full(), 40);
+            full.allow_defer = true;
+            full.empty_reads = false;
+            let stf = bfs(&full, &Limits { max_states: 5_000_000, max_secs: 600.0, ..Default::default() }, workers());
+            record(&mut part, "expect-alphabet-full (capped)", &stf);
+            for (v, _) in &stf.violations {
+                part.violations.push(v.clone());
+            }
+        }
         {
             let tl = crate::connx::stateless_sequences(&cfg, if thorough { 5 } else { 4 }, workers());
             crate::connx::record_stateless(&mut part, &cfg.label, &tl);
